@@ -106,6 +106,10 @@ ClosedW == Writers \ OpenW
 LegalWrites(w) == {ts \in SUBSET Even : ts # {} /\ Cardinality(ts) <= MaxLen /\ WriteGuard(w, ts) /\ SureWrite(w, ts)}
 Sel == 0..3
 NT == Cardinality(Time)
+\* first sample slot after everything stored so far (plan 7: sessions follow one another in time)
+NextFree == LET used == UNION {Samples(c) : c \in Chan}
+                free == {t \in Even : \A u \in used : u < t}
+            IN IF free = {} THEN 0 ELSE Min(free)
 GEnd == /\ Len(hist) = Depth /\ hist' = Append(hist, [a |-> "end"]) /\ UNCHANGED <<vars, unsure>>
 \* ---- scenario plans: the KIND of each step is prescribed, the arguments stay random.
 \* A free walk rarely strings together e.g. "write, delete everything, rewrite from an
@@ -123,7 +127,10 @@ Plans == <<
   <<"open", "write", "close", "open", "write", "write", "write", "close", "reopen", "open", "write", "write", "close", "reopen", "gc", "gc">>,
   \* 6: one session of many commits (with MaxLen = 1: one sample per commit; under a tiny file cap
   \*    the 8-byte index channel rolls over at every commit while a 1-byte data channel does not)
-  <<"open", "write", "write", "write", "write", "write", "close", "reopen", "open", "write", "write", "close">>
+  <<"open", "write", "write", "write", "write", "write", "close", "reopen", "open", "write", "write", "close">>,
+  \* 7: a durable session (explicit commit, closed), then auto-commit sessions of several commits (under
+  \*    interval index persistence and a tiny file cap: unpersisted commits, rollover, persisted commits)
+  <<"open", "write", "commit", "close", "open", "write", "write", "write", "close", "open", "write", "write", "gc", "close">>
 >>
 CanKind(kd) ==
   CASE kd = "open" -> ClosedW # {}
@@ -141,12 +148,12 @@ GNextSim == GEnd \/
   /\ Len(hist) < Depth
   /\ \E k \in 1..10, i \in Sel, j \in Sel, m \in Sel :
        \/ /\ k = 1 /\ ClosedW # {} /\ KindOK("open")
-          /\ LET cs == Nth(ChanSets, j) st == IF PlanId = 6 THEN 2 * (m % 2) ELSE (m + 4 * i) % NT
-             IN UsefulOpen(cs, st) /\ GOpen(Nth(ClosedW, i), cs, st, (i + j) % 2 = 0 \/ PlanId = 6)
+          /\ LET cs == Nth(ChanSets, j) st == IF PlanId = 6 THEN 2 * (m % 2) ELSE IF PlanId = 7 THEN NextFree ELSE (m + 4 * i) % NT
+             IN UsefulOpen(cs, st) /\ GOpen(Nth(ClosedW, i), cs, st, IF PlanId = 7 THEN Len(hist) > 0 ELSE ((i + j) % 2 = 0 \/ PlanId = 6))
        \/ /\ k \in {2, 3, 4, 5} /\ OpenW # {} /\ KindOK("write")
           /\ LET w == Nth(OpenW, i)
                  W == LegalWrites(w)
-             IN W # {} /\ GWrite(w, IF PlanId = 6 THEN CHOOSE ts \in W : \A o \in W : Max(ts) <= Max(o)   \* dense: the next slot(s)
+             IN W # {} /\ GWrite(w, IF PlanId \in {6, 7} THEN CHOOSE ts \in W : \A o \in W : Max(ts) <= Max(o)   \* dense: the next slot(s)
                                     ELSE Nth(W, m + 4 * j + 16 * (k - 2)))
        \/ /\ k = 6 /\ OpenW # {} /\ j = 0 /\ KindOK("commit")
           /\ LET w == Nth(OpenW, i) IN (wr[w].buf # {} \/ m = 0) /\ ~wr[w].auto /\ GCommit(w)
